@@ -173,6 +173,51 @@ def safe(fn, *a, **k):
         return None, "%s: %s\n%s" % (type(e).__name__, e, traceback.format_exc()[-800:])
 
 
+def _handle_cc(report, r, nm, fam, cc, replayer, meta):
+    """engine cross-validation of a CONFIRMED condition (vlib/concrete_worker.py)"""
+    if cc.get("error"):
+        report.note("engine cross-validation of %s did not run: %s" % (nm, cc["error"][:300]))
+        return
+    report.add(nm + "#concrete", "python (untraced harness)", "confirmed" if not cc["n_bad"] else "refuted",
+               "engine cross-validation: %d concrete runs of the harness function (%s of a space of %d), %d False" % (
+                   cc["runs"], "all admissible tuples" if cc.get("whole_space") else "seeded sample", cc.get("space", 0), cc["n_bad"]),
+               cc.get("wall_s", 0), cc["runs"], "engine-validation")
+    if not cc["n_bad"] and cc.get("first") is not None:
+        # replayer self-test: on arguments for which the harness function holds, the replay on the real code must run
+        # through and must not report a violation (a replayer that crashes or cries wolf would only show when needed)
+        args = tuple(cc["first"])
+        try:
+            ok, record = replayer(r["name"], args, {}, meta)
+            if ok and not meta.get("known_finding"):
+                report.harness_error("replayer of %s reports a violation for %r although the harness function holds there: %s" % (
+                    nm, args, json.dumps(record, default=str)[:400]))
+        except Exception as e:  # noqa
+            report.harness_error("replayer self-test of %s%r crashed: %s: %s\n%s" % (
+                nm, args, type(e).__name__, e, traceback.format_exc()[-500:]))
+    reproduced = 0
+    for b in cc["bad"][:4]:
+        args = tuple(b["args"])
+        try:
+            ok, record = replayer(r["name"], args, {}, meta)
+        except Exception as e:  # noqa
+            report.harness_error("replay of concrete run %s%r crashed: %s: %s" % (nm, args, type(e).__name__, e))
+            continue
+        if ok:
+            reproduced += 1
+            record = dict(record or {})
+            record.setdefault("condition", nm + "#concrete")
+            record.setdefault("call", "%s%r" % (r["name"], args))
+            record.setdefault("note", "CrossHair CONFIRMED this condition although the harness function is False on these concrete "
+                                      "arguments: a modelling defect of the symbolic engine; the violation is real (replayed)")
+            if meta.get("known_finding"):
+                report.known(meta["known_finding"], record.get("summary", str(args)))
+            else:
+                report.violation(record.get("summary", str(args)), record)
+        else:
+            report.harness_error("concrete run %s%r is False (%s) while CrossHair confirmed the condition, and it does not reproduce "
+                                 "on the real code" % (nm, args, b.get("why", "")))
+
+
 def handle_xh(report, results, replayer, family=""):
     """Fold CrossHair results into the report.
 
@@ -204,6 +249,9 @@ def handle_xh(report, results, replayer, family=""):
             if meta.get("known_finding"):
                 report.note("known finding %s: complementary query found no witness any more"
                             % meta["known_finding"])
+            cc = r.get("cc")
+            if cc:
+                _handle_cc(report, r, nm, fam, cc, replayer, meta)
         elif r["status"] == "refuted":
             call = r.get("call")
             rec = report.add(nm, "crosshair", "refuted", r.get("message", "")[:400], r.get("cpu_s", 0),
